@@ -287,3 +287,14 @@ _run_c05 = run
 def run(ck, prog):
     _run_c05(ck, prog)
     scale_free(ck, prog)
+
+
+_run_pre_builders = run
+
+
+def run(ck, prog):
+    _run_pre_builders(ck, prog)
+    # every setting of the quantifier is reachable through the public builder chain: setters must not clobber other fields
+    from sa.builders import check_builders
+    check_builders(ck, prog, r"^tree::decision_tree_(classifier|regressor)::DecisionTree(Classifier|Regressor)Parameters$")
+    ck.floor("E2-builder", 7)
